@@ -48,6 +48,7 @@ def run(ctx):
     rep.rule('R18.3', 'owners escape only to frame locals and the view cache attribute')
     rep.rule('R18.4', 'chunk readers keep their own reference to the owner list and drop readers before owners')
     rep.rule('R18.5', 'the owner list is replaced, never emptied in place')
+    rep.rule('R18.6', 'the owner list is published to the view only once it is complete')
     rep.assumptions = ['CPython reference counting / GC runs __del__ when the last reference goes away',
                        'chunk files are re-opened by name per iterator (_iterchunk)']
     rep.trusted = ['callee resolution']
@@ -366,6 +367,22 @@ def _chunk_class(ctx, rep, ci):
                          'the owner list is dropped before the chunk readers: open files are unlinked first', dels[0])
         else:
             rep.held('R18.4', fn, 'def ' + fn.name, 'holds the owner list in `%s` (%s)' % (holder, how), fn.node)
+    # ---- R18.6: the owner list is published to the view only when it is complete
+    if cache_attr is not None:
+        from .c01 import _mutated_after, Access
+        for fn, _ in creators:
+            for n in own_nodes(fn.node):
+                if isinstance(n, ast.Assign) and any(norm(t) == 'self.%s' % cache_attr for t in n.targets) and \
+                        isinstance(n.value, ast.Name):
+                    acc = Access(cache_attr, 'assign', fn, n, n)
+                    m = _mutated_after(ctx, acc, cache_attr)
+                    if m is not None:
+                        rep.violated('R18.6', fn, norm(n),
+                                     'the list of chunk owners is published as self.%s before it is complete (`%s` follows): '
+                                     'if the source fails while a later chunk is read the view keeps a partial cache and later '
+                                     'passes yield a truncated table' % (cache_attr, norm(m)), n)
+                    else:
+                        rep.held('R18.6', fn, norm(n), 'published after the last chunk was written', n)
     # ---- R18.5
     if cache_attr is not None:
         for fn in ci.methods.values():
